@@ -31,6 +31,7 @@ static int ref_strip(const char* s, int n, char* out, int accents) {
 }
 
 void harness(void) {
+    GHOST_INDICES_ARBITRARY();
     char key[KEYB], elm[ELMB], sk[KEYB], se[ELMB];
     for (int i = 0; i < KEYB - 1; ++i) key[i] = nondet_char();   /* explicit so that counterexamples carry the bytes */
     for (int i = 0; i < ELMB - 1; ++i) elm[i] = nondet_char();
